@@ -708,14 +708,6 @@ pub fn play_oracles(w: &World, mv: MMove, expect: &Model, cx: &mut Ctx) -> R {
     if !matches!(rb, Ok(Ok(()))) {
         cx.fail("C02/legal-move-not-playable/try".into(), format!("try_play({}) refused a legal move at {}", mv.text(), at))?;
     }
-    // every entry point that plays the move must yield the prescribed position (accessor level: the
-    // statement lists placement, side, rights, EP file and clocks; hash, pins and text are other properties')
-    if ra.is_ok() && adopt(&a) != *expect {
-        cx.fail("C02/successor/via-play".into(), format!("{} at {}: play gave {} expected {}", mv.text(), at, adopt(&a).to_fen(true), expect.to_fen(true)))?;
-    }
-    if matches!(rb, Ok(Ok(()))) && adopt(&b) != *expect {
-        cx.fail("C02/successor/via-try_play".into(), format!("{} at {}: try_play gave {} expected {}", mv.text(), at, adopt(&b).to_fen(true), expect.to_fen(true)))?;
-    }
     let got = adopt(&c);
     let kind = move_kind(&w.model, mv);
     let detail = format!("{} ({}) at {}: got {} expected {}", mv.text(), kind, at, got.to_fen(true), expect.to_fen(true));
@@ -741,6 +733,14 @@ pub fn play_oracles(w: &World, mv: MMove, expect: &Model, cx: &mut Ctx) -> R {
         cx.fail("C02/successor/fullmove".into(), detail.clone())?;
     }
     let _ = detail;
+    // every entry point that plays the move must yield the prescribed position (accessor level: the
+    // statement lists placement, side, rights, EP file and clocks; hash, pins and text are other properties')
+    if ra.is_ok() && adopt(&a) != *expect {
+        cx.fail("C02/successor/via-play".into(), format!("{} at {}: play gave {} expected {}", mv.text(), at, adopt(&a).to_fen(true), expect.to_fen(true)))?;
+    }
+    if matches!(rb, Ok(Ok(()))) && adopt(&b) != *expect {
+        cx.fail("C02/successor/via-try_play".into(), format!("{} at {}: try_play gave {} expected {}", mv.text(), at, adopt(&b).to_fen(true), expect.to_fen(true)))?;
+    }
     Ok(())
 }
 
